@@ -173,7 +173,7 @@ func copyPath(
 		return err
 	}
 	defer func() {
-		retErr = errors.Join(err, readObjectCloser.Close())
+		retErr = errors.Join(retErr, readObjectCloser.Close())
 	}()
 	return copyReadObject(ctx, readObjectCloser, to, toPath, copyExternalAndLocalPaths, atomic)
 }
